@@ -215,8 +215,17 @@ func c13StartCluster(c *fw.Ctx, p int) *c13Cluster {
 	cl.SetClock(dbdrv.Epoch.Add(2 * time.Second))
 	cc := &c13Cluster{cl: cl, r0: map[string]*dbdrv.Result{}}
 	for _, q := range c13ClusterQueries() {
-		c13Register(cl, 0, "", 0, 2)
-		r, err := cl.QueryLeaderOnce(context.Background(), 0, q, true)
+		var r *dbdrv.Result
+		var err error
+		// the fault-free baseline runs under the same (short) query timeout as the faulted runs; on a busy machine
+		// it can take longer than that, so it is retried - it only serves as ground truth
+		for attempt := 0; attempt < 10; attempt++ {
+			c13Register(cl, 0, "", 0, 2)
+			r, err = cl.QueryLeaderOnce(context.Background(), 0, q, true)
+			if err == nil && r.Stats != nil && r.Stats.NumSuccessfulPartitions == p {
+				break
+			}
+		}
 		if err != nil || r.Stats == nil || r.Stats.NumSuccessfulPartitions != p {
 			c.Incomplete(fmt.Sprintf("baseline cluster query %q failed: %v %+v", q, err, r))
 			cl.Close()
